@@ -68,7 +68,7 @@ Proof.
     destruct Hcu as [<-|[<-|[<-|[]]]]; destruct Ha as [<-|[<-|[]]];
     (eexists; eexists; split; [vm_compute; reflexivity | reflexivity]) ||
     idtac.
-  all: try (exists [PFallible 7; PFallible 1; PFallible 2; PFallible 3; PFallible 4; PFallible 5]; eexists; split; [vm_compute; reflexivity|reflexivity]).
+  all: try (exists [PFallible 7; PFallible 2; PFallible 1; PFallible 2; PFallible 3; PFallible 4; PFallible 5]; eexists; split; [vm_compute; reflexivity|reflexivity]).
 Qed.
 
 (* the merge-and-save step (PFallible 6) really is fallible in the sense the programs need: when the
@@ -107,10 +107,10 @@ Lemma C12_delete_is_last_refuted_old :
   delete_is_last (reap_prims old_prog model_dispatch FSampler None false) = false.
 Proof. vm_compute. reflexivity. Qed.
 
-(* non-vacuity: the harvester program really contains a deletion and 7 fallible steps *)
+(* non-vacuity: the harvester program really contains a deletion and 8 fallible steps *)
 Example C12_example :
   prims FHarvester None false
-  = [PFallible 7; PFallible 1; PFallible 2; PFallible 3; PFallible 4; PFallible 5; PFallible 6; PDelete].
+  = [PFallible 7; PFallible 2; PFallible 1; PFallible 2; PFallible 3; PFallible 4; PFallible 5; PFallible 6; PDelete].
 Proof. vm_compute. reflexivity. Qed.
 
 Print Assumptions C12_delete_is_last.
